@@ -72,6 +72,12 @@ def monitor_case(c):
         if not d["json_ok"]:
             yield ("the status of the DAG accepted by %s cannot be serialised: %s" % (ep, d.get("json_err")),
                    {"defect": "not-serialisable", "shape": L.not_serialisable_shape(tree, d.get("json_err", ""))})
+        # "runnable": the runner dereferences these pointers without a test (agent.setup: SMTP; reporter: ErrorMail / InfoMail
+        # as soon as mailOn.failure / mailOn.success / a step's mailOnError asks for a mail)
+        for fld in ("smtp", "errorMail", "infoMail"):
+            if not d.get("ptrs", {}).get(fld, True):
+                yield ("the DAG accepted by %s has a nil %s: the agent / its reporter dereference it when the DAG runs" % (ep, fld),
+                       {"defect": "nil-runner-pointer", "field": fld})
         ept = d.get("endpoint") or ""
         if ept and ept != "200" and not ept.startswith("skip"):
             yield ("the live status endpoint of an agent for the DAG accepted by %s answered %r instead of 200" % (ep, ept),
@@ -152,7 +158,7 @@ def slim(c):
             out["res"][e]["endpoint"] = r["dag"]["endpoint"]
     for e, r in c["res"].items():
         if r.get("dag"):
-            out["res"][e]["dag"] = {k: r["dag"][k] for k in ("name", "steps", "handlers", "sched", "json_ok", "json_err") if k in r["dag"]}
+            out["res"][e]["dag"] = {k: r["dag"][k] for k in ("name", "steps", "handlers", "sched", "ptrs", "json_ok", "json_err") if k in r["dag"]}
             bad = [x for x in r["dag"].get("conds", []) if x["cls"] == "panic"]
             if bad:
                 out["res"][e]["conds"] = bad
